@@ -42,8 +42,11 @@ def gen_real(rng, nonzero=False, nonneg=False, positive=False, small=False):
             body = str(rng.randint(0, 999 if small else 99999))
             if rng.random() < 0.08:
                 body = "0" * rng.randint(1, 2) + body
-        elif k < 0.65:
+        elif k < 0.55:
             body = f"{rng.randint(0, 999)}.{rng.randint(0, 9999)}"
+        elif k < 0.65:
+            # any number of digits on either side of the point (4-6 before it and 2-3 after it is the shape of a ZAID)
+            body = f"{rng.randint(0, 10 ** rng.randint(1, 6) - 1)}.{str(rng.randint(0, 999)).zfill(rng.randint(1, 3))}"
         elif k < 0.75:
             body = f"{rng.randint(0, 999)}."
         elif k < 0.85:
